@@ -19,4 +19,16 @@ var units = map[string]unit{
 		Imports:   []string{"AggkitModel.Model.GenPrelude"},
 		Fns: []fnSpec{{"EpochNotifierPerBlock", "startingBlockEpoch"}, {"EpochNotifierPerBlock", "endBlockEpoch"}, {"EpochNotifierPerBlock", "epochNumber"}},
 	},
+	"QueryTable": {
+		Files:     []string{"bridgesync/bridgesync.go", "l1infotreesync/l1infotreesync.go", "bridgesync/processor.go", "l1infotreesync/processor.go"},
+		Namespace: "Aggkit.Gen.QueryTable",
+		Imports:   []string{"AggkitModel.Model.GenPrelude"},
+		Custom:    queryTable,
+	},
+	"Schema": {
+		Files:     []string{"*/migrations/*.sql", "db/sqlite.go"},
+		Namespace: "Aggkit.Gen.Schema",
+		Imports:   []string{"AggkitModel.Model.GenPrelude"},
+		Custom:    schemaFacts,
+	},
 }
